@@ -767,7 +767,8 @@ fn random_file(rng: &mut crate::core::Rng, big: bool) -> FileSpec {
     if rng.bool() {
         let mut v = Vec::new();
         for _ in 0..n(rng) {
-            let np = if big && rng.chance(1, 50) { 2000 } else { rng.usize_below(7) };
+            // small lists mostly; sometimes long ones up to the protocol's maximum of 16380
+            let np = if big && rng.chance(1, 50) { *rng.pick(&[2000usize, 16379, 16380]) } else { rng.usize_below(7) };
             let mut provs: Vec<u32> = (0..np).map(|_| random_asn(rng)).collect();
             if rng.bool() {
                 provs.sort();
@@ -1009,7 +1010,7 @@ fn part_json(ctx: &mut Ctx) {
     let mut evals = 0u64;
     let (mut with_aspa, mut hand_ok, mut hand_rej, mut hand_eq) = (0u64, 0u64, 0u64, 0u64);
     for i in 0..n {
-        let spec = random_file(&mut rng, ctx.tier == Tier::Thorough && ctx.stage == Stage::Native);
+        let spec = random_file(&mut rng, ctx.stage == Stage::Native && (ctx.tier == Tier::Thorough || i % 4 == 0));
         let mut file = spec.lib();
         if i % 11 == 0 && spec.filters.aspa.is_none() && spec.aspa.is_none() {
             // a version-1 file that gained an ASPA member through its public field
@@ -1072,6 +1073,29 @@ fn part_json(ctx: &mut Ctx) {
             evals += 1;
             if w != compact.as_bytes() {
                 ctx.obs("to_writer_differs_from_to_string", 1);
+            }
+        }
+        // the writer entry points into a sink that takes only a few bytes per
+        // call: what arrives must still parse back to the same file
+        if i % 7 == 0 {
+            for pretty_variant in [false, true] {
+                let mut sink = ShortSink { out: Vec::new(), max: 1 + (i as usize % 13) };
+                let res = if pretty_variant { file.to_writer_pretty(&mut sink) } else { file.to_writer(&mut sink) };
+                evals += 1;
+                let what = if pretty_variant { "to_writer_pretty" } else { "to_writer" };
+                match res {
+                    Ok(()) => match SlurmFile::from_reader(sink.out.as_slice()) {
+                        Ok(back) if back == file => {}
+                        other => {
+                            ctx.violation(
+                                &format!("C15:json-roundtrip:{}-short-writes", what),
+                                &format!("{} into a sink with short writes does not parse back to the same file", what),
+                                json!({"written": String::from_utf8_lossy(&sink.out).chars().take(400).collect::<String>(), "expected_len": compact.len(), "written_len": sink.out.len(), "error": other.err().map(|e| e.to_string())}),
+                            );
+                        }
+                    },
+                    Err(_) => ctx.obs("to_writer_short_sink_error", 1),
+                }
             }
         }
         // the assertions yield exactly their fields
@@ -1163,4 +1187,22 @@ pub fn run(ctx: &mut Ctx) {
     part_drop(ctx);
     ctx.breadcrumb("C15 json");
     part_json(ctx);
+}
+
+
+/// An `io::Write` that takes at most `max` bytes per call.
+struct ShortSink {
+    out: Vec<u8>,
+    max: usize,
+}
+
+impl std::io::Write for ShortSink {
+    fn write(&mut self, buf: &[u8]) -> std::io::Result<usize> {
+        let n = buf.len().min(self.max);
+        self.out.extend_from_slice(&buf[..n]);
+        Ok(n)
+    }
+    fn flush(&mut self) -> std::io::Result<()> {
+        Ok(())
+    }
 }
